@@ -514,7 +514,10 @@ func (e *Engine) execConvert(s *State, x *ssa.Convert) *Val {
 		return &Val{L: []string{e.define(s, x.Name(), "Int", wrap(to, v.L[0]))}}
 	case isStringT(to):
 		if sl, ok := from.Underlying().(*types.Slice); ok {
-			r := e.declare(s, "str", "Str")
+			// the string made of bytes [off, off+len) of the array value: a function of exactly these
+			h0 := e.heapGet(s, "E!"+typeKey(sl.Elem()), "(Array Int (Array Int Int))")
+			e.globalDecl("(declare-fun bstr ((Array Int Int) Int Int) Str)")
+			r := e.define(s, "str", "Str", app("bstr", app("select", h0, v.L[0]), v.L[1], v.L[2]))
 			s.assume(eq(app("slen", r), v.L[2]))
 			if e.Cfg.StrBytes {
 				h := e.heapGet(s, "E!"+typeKey(sl.Elem()), "(Array Int (Array Int Int))")
@@ -782,6 +785,9 @@ func (e *Engine) execNext(s *State, x *ssa.Next) []*State {
 	k := e.havocVal(s, mt.Key(), "rk")
 	s.assume(and(app("select", it.Dom0, k.L[0]), not(app("select", it.V, k.L[0]))))
 	v, _ := e.mapLoad(s, mt, it.Map.L[0], k)
+	if strings.Contains(e.C.Containers[it.Map.Src], "nonnil") && len(v.L) == 1 {
+		s.assume(not(eq(v.L[0], "0")))
+	}
 	nit := *it
 	nit.V = e.define(s, "visited", "(Array "+ks+" Bool)", app("store", it.V, k.L[0], "true"))
 	if it.Vals0 != "" {
